@@ -89,7 +89,8 @@ pub fn gen_vals<T: Elem>(r: &mut Rng, n: usize, shape: u64) -> (Vec<T>, &'static
     let span = hi - lo; // < 2^64
     let clamp = |x: i128| x.max(lo).min(hi);
     let rnd_in = |r: &mut Rng, a: i128, b: i128| -> i128 { if b <= a { a } else { a + (r.next() as u128 % ((b - a + 1) as u128)) as i128 } };
-    let small: i128 = *r.pick(&[1i128, 2, 7, 16, 100, 255, 256, 1000, 65535, 65536, 70000]);
+    let small: i128 = if r.chance(1, 2) { *r.pick(&[1i128, 2, 7, 16, 100, 255, 256, 1000, 65535, 65536, 70000]) }
+                      else { let k = r.range(1, 63) as u32; (1i128 << k) - *r.pick(&[0i128, 1, 1]) }; // every bit width 1..63, at 2^k-1 and 2^k
     let small = small.min(span);
     let base = match r.below(5) { 0 => lo, 1 => hi - small, 2 => clamp(-small / 2), 3 => clamp(0), _ => rnd_in(r, lo, hi - small) };
     let (v, name): (Vec<i128>, &'static str) = match shape {
@@ -104,7 +105,9 @@ pub fn gen_vals<T: Elem>(r: &mut Rng, n: usize, shape: u64) -> (Vec<T>, &'static
             let mut c = rnd_in(r, lo, hi - (small * n as i128).min(span)); let mut v: Vec<i128> = (0..n).map(|_| { c = clamp(c + rnd_in(r, 0, small)); c }).collect();
             if n >= 2 { let k = 1 + r.below(n as u64 - 1) as usize; v[k] = clamp(v[k - 1] - 1 - rnd_in(r, 0, small)); }
             (v, "one_inversion") }
-        5 => ((0..n).map(|_| base + rnd_in(r, 0, small)).collect(), "small_range"),
+        5 => { let mut v: Vec<i128> = (0..n).map(|_| base + rnd_in(r, 0, small)).collect();
+               if n >= 2 && r.chance(2, 3) { let a = r.below(n as u64) as usize; let b = (a + 1 + r.below(n as u64 - 1) as usize) % n; v[a] = base; v[b] = base + small; } // the range is exactly `small`
+               (v, "small_range") }
         6 => ((0..n).map(|_| rnd_in(r, lo, hi)).collect(), "full_range"),
         7 => { let k = 1 + r.below(3); let out = *r.pick(&[hi, hi - 1, lo, clamp(hi / 2 + 1), clamp(1i128 << 59), clamp((1i128 << 58) - 1), clamp(1i128 << 32), clamp(1i128 << 16)]);
                let b = *r.pick(&[clamp(0), clamp(-3), lo, clamp(1000)]);
